@@ -311,6 +311,24 @@ def _task_d(args):
                          "detail": f"[{kind} send({first}) suspended by flow control, devs={devs}] final state {o.states[-1] if o.states else None}; status {[x for _, x in o.status]}; "
                                    f"attempts {[(round(a.t, 2), a.outcome) for a in sess.gw.attempts]}",
                          "case": {"part": "D", "client": kind, "first": first, "second": second, "away": bool(away), "deviations": [list(d) for d in devs]}})
+        # a message whose first packet is written after a newer connection has been reported CONNECTED goes to that connection
+        # (the packets of a message that was cut in two by the reconnection may continue on the new link)
+        accepted, current, started = None, None, set()
+        for ev in sess.gw.log:
+            if ev[0] == "accepted":
+                accepted = ev[1]
+            elif ev[0] == "status" and ev[1] == "CONNECTED":
+                current = accepted
+            elif ev[0] == "write":
+                pg = pgn_of(kind, bytes.fromhex(ev[2]))
+                if pg in (PGN_OF[first], PGN_OF[second]) and pg not in started:
+                    started.add(pg)
+                    if current is not None and ev[1] < current:
+                        vios.append({"kind": "written_to_stale_link", "facts": {"client": kind, "part": "D", "mechanism": "stale_writer"},
+                                     "signature": f"D:stale:{kind}:{first}:{second}",
+                                     "detail": f"[{kind} send({first}) suspended by flow control, devs={devs}] the first packet of PGN {pg} was written to connection {ev[1]} "
+                                               f"although connection {current} had been reported CONNECTED",
+                                     "case": {"part": "D", "client": kind, "first": first, "second": second, "away": bool(away), "deviations": [list(d) for d in devs]}})
         for c in sess.gw.conns:
             owners = [pgn_of(kind, w) for w in c.written]
             owners = [x for x in owners if x in (PGN_OF[first], PGN_OF[second])]
